@@ -196,6 +196,11 @@ func genC07(seed uint64, run int, tier string) Scenario {
 		// more than a thousand chunks read and queued, none of them taken, when Close comes
 		sc.State = "backlog"
 	}
+	if leg == "R" && r.IntN(2) == 0 {
+		// the free-running leg looks for unsynchronised access: the paths taken after a read
+		// error get half of its runs
+		sc.State = pick(r, "after-err-consumed", "after-err-consumed", "after-err-unconsumed", "err-arriving")
+	}
 	rdUS := int64(rd / time.Microsecond)
 	if rdUS == 0 {
 		rdUS = 1
@@ -415,10 +420,10 @@ func init() {
 			Legs: []Leg{
 				{Name: "D", QuickRuns: 3000, Share: 0.35},
 				{Name: "F", QuickRuns: 3000, Share: 0.15},
-				{Name: "R", Race: true, QuickRuns: 320, Share: 0.2, Procs: 4},
+				{Name: "R", Race: true, QuickRuns: 640, Share: 0.2, Procs: 4},
 				{Name: "N", Prop: "C07N", QuickRuns: 1500, Share: 0.12},
 				{Name: "NF", Prop: "C07N", QuickRuns: 1500, Share: 0.08},
-				{Name: "NR", Prop: "C07N", Race: true, QuickRuns: 200, Share: 0.1, Procs: 4},
+				{Name: "NR", Prop: "C07N", Race: true, QuickRuns: 800, Share: 0.1, Procs: 4},
 			},
 		},
 		Gen:    genC07,
